@@ -264,12 +264,29 @@ func TestVerif_C12_Descriptors(t *testing.T) {
 			g = k.g
 		}
 		k.g = g
+		// the group as a member holds it: as issued, or as joined from an invitation that lost the fields which are
+		// not part of what a join verifies (such an invitation is accepted, so its descriptor is in scope)
+		variant := "as-issued"
+		held := g
+		if kind == 2 {
+			variant = rapid.SampledFrom([]string{"as-issued", "link_key_sig-removed", "link_key_sig-emptied"}).Draw(rt, "variant")
+			held = proto.Clone(g).(*protocoltypes.Group)
+			switch variant {
+			case "link_key_sig-removed":
+				held.LinkKeySig = nil
+			case "link_key_sig-emptied":
+				held.LinkKeySig = []byte{}
+			}
+			if err := held.IsValid(); err != nil {
+				rt.Fatalf("harness: the %s invitation is not accepted: %v", variant, err)
+			}
+		}
 		fail := func(id, f string, a ...any) {
 			msg := fmt.Sprintf(f, a...)
-			acct.Violation("descriptor/"+id, "TestVerif_C12_Descriptors", map[string]any{"group_type": g.GroupType.String(), "msg": msg})
-			rt.Fatalf("C12 %s: %s", id, msg)
+			acct.Violation("descriptor/"+id, "TestVerif_C12_Descriptors", map[string]any{"group_type": g.GroupType.String(), "held_as": variant, "msg": msg})
+			rt.Fatalf("C12 %s (group held %s): %s", id, variant, msg)
 		}
-		d, err := FilterGroupForReplication(g)
+		d, err := FilterGroupForReplication(held)
 		if err != nil {
 			fail("filter-error", "FilterGroupForReplication failed for a %v group: %v", g.GroupType, err)
 		}
@@ -337,6 +354,6 @@ func TestVerif_C12_Descriptors(t *testing.T) {
 		}
 		acct.Case(true, fmt.Sprintf("desc|%d|%x", kind, g.PublicKey[:6]), func() any {
 			return map[string]any{"kind": "descriptor", "group_type": g.GroupType.String(), "envelopes_tried": tried}
-		}, "descriptor", "descriptor/"+g.GroupType.String())
+		}, "descriptor", "descriptor/"+g.GroupType.String(), lbl07(variant != "as-issued", "descriptor/joined-without-link-key-sig"))
 	})
 }
